@@ -183,6 +183,75 @@ impl Scenario {
     }
 }
 
+/// pid -> script of the scenario, from the NotifySpawn commands in global order: the k-th spawn of
+/// a caller is the k-th Spawn act of its script
+pub fn pid_scripts_of(sim: &Sim, sc: &Scenario) -> HashMap<usize, usize> {
+    let mut notes: Vec<(u64, usize, usize)> = vec![];
+    for ch in &sim.chans {
+        let c = ch.chan.lock().unwrap();
+        for (seq, cmd) in &c.cmd_log {
+            if let Command::NotifySpawn { process_id, spawned_pid, .. } = cmd {
+                notes.push((*seq, *process_id, *spawned_pid));
+            }
+        }
+    }
+    notes.sort();
+    let mut map: HashMap<usize, usize> = HashMap::new();
+    map.insert(0, 0);
+    let mut count: HashMap<usize, usize> = HashMap::new();
+    for (_, caller, child) in notes {
+        let Some(s) = map.get(&caller).copied() else { continue };
+        let k = count.entry(caller).or_insert(0);
+        let spawns: Vec<usize> = sc.scripts[s].iter().filter_map(|a| if let Act::Spawn { f, .. } = a { Some(*f) } else { None }).collect();
+        if let Some(f) = spawns.get(*k) {
+            map.insert(child, *f);
+        }
+        *k += 1;
+    }
+    map
+}
+
+/// C03's `StreamStatement`, observed: with ONE sender script per mailbox the arrival history of a
+/// receiving process (the DeliverMessage commands for it, in the order its worker received them)
+/// is a prefix of the sender's STATIC send sequence to it (the sends of the sender's script whose
+/// register denotes the receiver's script, in script order); returns the violations.
+pub fn stream_oracle(sim: &Sim, sc: &Scenario, reg_scripts: &[Vec<usize>]) -> Vec<String> {
+    let mut out = vec![];
+    let scripts = pid_scripts_of(sim, sc);
+    // static streams per receiver script
+    let mut stream: HashMap<usize, Vec<(u64, u64)>> = HashMap::new();
+    for (s, script) in sc.scripts.iter().enumerate() {
+        for a in script {
+            if let Act::Send { reg, tag, seq } = a
+                && let Some(r) = reg_scripts[s].get(*reg)
+            {
+                stream.entry(*r).or_default().push((*tag, *seq));
+            }
+        }
+    }
+    for ch in &sim.chans {
+        let c = ch.chan.lock().unwrap();
+        let mut arrived: HashMap<usize, Vec<(u64, u64)>> = HashMap::new();
+        for (_, cmd) in &c.cmd_log {
+            if let Command::DeliverMessage { target, message, .. } = cmd
+                && let Some(k) = msg_pair(message)
+            {
+                arrived.entry(*target).or_default().push(k);
+            }
+        }
+        for (pid, got) in arrived {
+            let Some(r) = scripts.get(&pid) else { continue };
+            let expect = stream.get(r).cloned().unwrap_or_default();
+            if got.len() > expect.len() || got[..] != expect[..got.len()] {
+                out.push(format!(
+                    "arrival history of pid {pid} (script {r}) is {got:?}, not a prefix of the static send sequence {expect:?} of its single sender"
+                ));
+            }
+        }
+    }
+    out
+}
+
 /// Parse the `scripts` S-expression back (for corpus / replay files).
 pub fn parse_scripts(s: &str) -> Option<Vec<Vec<Act>>> {
     #[derive(Debug)]
